@@ -10,6 +10,7 @@ CONSTANTS
   TG = "t12"
   LAYOUTS = {"dfs"}
   EMIT = TRUE
+VIEW View
 INVARIANTS LawFault ResultWellFormed
 ACTION_CONSTRAINT Emit
 CHECK_DEADLOCK FALSE
